@@ -510,8 +510,8 @@ def exclusion_check(chk, rng, sbs_hint=None):
         sbx.close()
 
 
-def judge_all(chk, cases, ids):
-    defs = f"Definition pkgfs : list (path * node) := {coq_entries(pkg_listing(ids))}.\n" + "\n".join(cases.defs)
+def judge_all(chk, cases, ids, pkgfs):
+    defs = f"Definition pkgfs : list (path * node) := {coq_entries(pkgfs)}.\n" + "\n".join(cases.defs)
     return chk.coq_judge(IMPORTS, "case", "judge", cases.terms, shard=6, defs=defs), defs
 
 
@@ -548,6 +548,7 @@ def run(chk):
     quick = chk.tier == "quick"
     ids = Ids()
     cases = Cases()
+    pkgfs = pkg_listing(ids)          # first: the copies of the package's assets get these content ids
 
     def scenarios():
         return [S.gen_scenario(rng, "@SB@", pl, simple=pl[6]) for pl in S.placements("@SB@")]
@@ -592,7 +593,7 @@ def run(chk):
     # (5) source discovery excludes the output directory
     exclusion_check(chk, rng)
 
-    res, defs = judge_all(chk, cases, ids)
+    res, defs = judge_all(chk, cases, ids, pkgfs)
     if res is None:
         return
     chk.traces += len(cases.terms)
